@@ -8,19 +8,20 @@ import (
 	"context"
 	"database/sql"
 	"database/sql/driver"
-	"regexp"
-	"sync"
-	"time"
 	"encoding/json"
 	"flag"
 	"fmt"
+	"github.com/resonatehq/resonate/pkg/promise"
 	"io"
 	"log/slog"
 	"os"
 	"path/filepath"
 	"reflect"
+	"regexp"
 	"sort"
 	"strings"
+	"sync"
+	"time"
 
 	sqlite3 "github.com/mattn/go-sqlite3"
 	"github.com/prometheus/client_golang/prometheus"
@@ -82,7 +83,83 @@ func (c *pgshimConn) BeginTx(ctx context.Context, o driver.TxOptions) (driver.Tx
 	return c.c.BeginTx(ctx, o)
 }
 func (c *pgshimConn) PrepareContext(ctx context.Context, q string) (driver.Stmt, error) {
-	return c.c.PrepareContext(ctx, pgToSqlite(q))
+	st, err := c.c.PrepareContext(ctx, pgToSqlite(q))
+	if err != nil || pgSlowMatch == "" || !strings.Contains(q, pgSlowMatch) {
+		return st, err
+	}
+	return &slowStmt{st.(*sqlite3.SQLiteStmt)}, nil
+}
+
+// a statement made slow by the harness (the deadline phase): it runs, and succeeds, after the pause
+var pgSlowMatch string
+var pgSlowPause time.Duration
+
+type slowStmt struct{ s *sqlite3.SQLiteStmt }
+
+func (s *slowStmt) Close() error  { return s.s.Close() }
+func (s *slowStmt) NumInput() int { return s.s.NumInput() }
+func (s *slowStmt) Exec(a []driver.Value) (driver.Result, error) {
+	time.Sleep(pgSlowPause)
+	return s.s.Exec(a) //nolint:staticcheck
+}
+func (s *slowStmt) Query(a []driver.Value) (driver.Rows, error) { return s.s.Query(a) } //nolint:staticcheck
+func (s *slowStmt) ExecContext(ctx context.Context, a []driver.NamedValue) (driver.Result, error) {
+	time.Sleep(pgSlowPause)
+	return s.s.ExecContext(ctx, a)
+}
+func (s *slowStmt) QueryContext(ctx context.Context, a []driver.NamedValue) (driver.Rows, error) {
+	return s.s.QueryContext(ctx, a)
+}
+
+// pgDeadlinePhase: the REAL Postgres worker's Execute with a transaction deadline that expires while the last statement of the
+// transaction is still running (the statement itself succeeds).  database/sql has rolled the transaction back by the time
+// Execute commits: whatever Execute reports, an acknowledged write must be in the database (C17: the Postgres backend reports
+// what the sqlite backend reports — which fails such a batch, txedge — and C06 / C16 of the Postgres store).
+func pgDeadlinePhase(dir string) (M, int) {
+	checked := 0
+	for i, pause := range []time.Duration{120 * time.Millisecond, 250 * time.Millisecond} {
+		path := filepath.Join(dir, fmt.Sprintf("pgdeadline-%d.db", i))
+		os.Remove(path)
+		defer os.Remove(path)
+		boot, err := sql.Open("sqlite3", path)
+		if err != nil {
+			return M{"harness": err.Error()}, checked
+		}
+		if _, err := boot.Exec(sqlite.CREATE_TABLE_STATEMENT); err != nil {
+			return M{"harness": err.Error()}, checked
+		}
+		boot.Close()
+		pgshimOnce.Do(func() { sql.Register("pgshim", &pgshimDriver{}) })
+		db, err := sql.Open("pgshim", path)
+		if err != nil {
+			return M{"harness": err.Error()}, checked
+		}
+		db.SetMaxOpenConns(1)
+		pgSlowMatch, pgSlowPause = "INSERT INTO promises", pause
+		w := postgres.NewVerifWorker(db, pause/3)
+		id := fmt.Sprintf("late%d", i)
+		res, xerr := w.Execute([]*t_aio.Transaction{{Commands: []*t_aio.Command{{Kind: t_aio.CreatePromise, CreatePromise: &t_aio.CreatePromiseCommand{
+			Id: id, Timeout: 1 << 40, Param: promise.Value{Headers: map[string]string{}, Data: []byte{}}, Tags: map[string]string{}, CreatedOn: 1}}}}})
+		pgSlowMatch = ""
+		db.Close()
+		rdb, err := sql.Open("sqlite3", path)
+		if err != nil {
+			return M{"harness": err.Error()}, checked
+		}
+		n := 0
+		_ = rdb.QueryRow("SELECT COUNT(*) FROM promises WHERE id = ?", id).Scan(&n)
+		rdb.Close()
+		acked := xerr == nil && len(res) == 1 && len(res[0]) == 1 && res[0][0].CreatePromise != nil && res[0][0].CreatePromise.RowsAffected == 1
+		if acked && n != 1 {
+			return M{"what": "the Postgres worker acknowledged a transaction that is not in the database", "property_violation": true,
+				"diff": fmt.Sprintf("Execute([CreatePromise %s]) with a transaction deadline of %v that expired while the insert (made to take %v) was running reported RowsAffected=1 and no error; the promise is not stored (database/sql had rolled the transaction back before the commit)", id, pause/3, pause)}, checked
+		}
+		if !acked && n == 1 {
+			return M{"what": "the Postgres worker reported a failed transaction that is in the database", "property_violation": true, "diff": fmt.Sprintf("Execute reported %v for promise %s, which is stored", xerr, id)}, checked
+		}
+		checked++
+	}
+	return nil, checked
 }
 func (c *pgshimConn) ExecContext(ctx context.Context, q string, a []driver.NamedValue) (driver.Result, error) {
 	return c.c.ExecContext(ctx, pgToSqlite(q), a)
@@ -237,12 +314,12 @@ var monitors = map[string]bool{}
 var modelDialect = "sqlite"
 
 type runner struct {
-	drv    *lean.Driver
-	dir    string
-	nimpl  int
+	drv      *lean.Driver
+	dir      string
+	nimpl    int
 	implOnly bool // after a divergence: the property monitors alone decide
-	stats  M
-	counts map[string]int
+	stats    M
+	counts   map[string]int
 }
 
 // runScript executes batches from a fresh database on both sides; returns index of the first
@@ -353,7 +430,12 @@ func (r *runner) runScript(script [][][]*t_aio.Command, dialect string) (int, M)
 							u := cl[rid]
 							if u == nil || jn(u["expiresAt"]) != tm+jn(t["ttl"]) {
 								return bi, M{"what": "property monitor failed on the implementation", "property": "C09",
-									"diff": fmt.Sprintf("lock on %q held by process %v (ttl %d) was heartbeated at %d in this batch but expires at %v afterwards, not at %d", rid, t["processId"], jn(t["ttl"]), tm, func() any { if u == nil { return "<gone>" }; return u["expiresAt"] }(), tm+jn(t["ttl"])),
+									"diff": fmt.Sprintf("lock on %q held by process %v (ttl %d) was heartbeated at %d in this batch but expires at %v afterwards, not at %d", rid, t["processId"], jn(t["ttl"]), tm, func() any {
+										if u == nil {
+											return "<gone>"
+										}
+										return u["expiresAt"]
+									}(), tm+jn(t["ttl"])),
 									"property_violation": true}
 							}
 							r.counts["lock_heartbeats_checked"]++
@@ -719,6 +801,23 @@ func main() {
 		if divergedScript != nil && summary["disagreements"] == 0 {
 			r.implOnly = false
 			fail(divergedScript, divergedInfo, divergedAt)
+		}
+	}
+	if pgshim && *replay == "" && summary["disagreements"] == 0 {
+		info, n := pgDeadlinePhase(*work)
+		r.counts["pg_deadline_checked"] = n
+		if info != nil && info["harness"] != nil {
+			summary["disagreements"] = 1
+			summary["divergence"] = "harness: " + fmt.Sprint(info["harness"])
+		} else if info != nil {
+			path := filepath.Join(*work, "storediff-divergence.json")
+			b, _ := json.MarshalIndent(M{"harness": "storediff", "phase": "pg-deadline", "result": info}, "", " ")
+			os.WriteFile(path, b, 0o644)
+			summary["disagreements"] = 1
+			summary["divergence_file"] = path
+			summary["divergence"] = info["what"]
+			summary["diff"] = fmt.Sprint(info["diff"])
+			summary["property_violation"] = true
 		}
 	}
 	summary["scripts"] = *nscripts
